@@ -1,6 +1,10 @@
 """Implementation side of C15 (real nested Parallel runs).   usage: c15_nest.py <logdir> '<json tree>'
 
 tree : {"backend": null|"loky"|"threading"|"multiprocessing"|"sequential", "n_jobs": n, "ntasks": m, "child": tree|null}
+Alternatively  {"seq": [[n_jobs, ntasks], ...], "pin": bool}  : a REUSE sequence -- the calls Parallel(n_jobs=n) are made one
+after the other in THIS process on the default loky backend, so that the reusable executor is resized between them
+(pin=true wraps them in parallel_config('loky', inner_max_num_threads=1) so that the worker environment, hence the executor,
+is the same whatever n_jobs is); call paths are "q0", "q1", ...
 Every task of a call runs the same child call.  All processes append events to <logdir>/events.jsonl (O_APPEND, one short line
 per event).  A task, once started, waits until min(expected workers, ntasks) tasks of ITS call have started (so the
 concurrency the backend grants is really reached: deterministic barrier, generous timeout, no sleeping for luck), holds a
@@ -78,6 +82,28 @@ def run_node(logdir, tree, path):
         log(logdir, dict(info, **{"raise": "ValueError", "msg": str(e)[:100]}))
 
 
+def run_seq(logdir, spec):
+    import contextlib
+    from joblib import Parallel, delayed, parallel_config
+    from joblib.externals.loky import reusable_executor
+    cm = parallel_config("loky", inner_max_num_threads=1) if spec.get("pin") else contextlib.nullcontext()
+    with cm:
+        for k, (n, m) in enumerate(spec["seq"]):
+            path = "q%d" % k
+            p = Parallel(n_jobs=n)
+            eff = p._effective_n_jobs()
+            before = id(reusable_executor._executor) if reusable_executor._executor is not None else None
+            log(logdir, {"e": "call", "path": path, "pid": os.getpid(), "tid": threading.get_ident(),
+                         "kind": type(p._backend).__name__, "level": p._backend.nesting_level, "eff": eff, "n_jobs": n})
+            p(delayed(task)(logdir, path, i, min(eff, m), None) for i in range(m))
+            after = id(reusable_executor._executor) if reusable_executor._executor is not None else None
+            log(logdir, {"e": "after", "path": path, "executor_reused": before is not None and before == after})
+
+
 if __name__ == "__main__":
-    run_node(sys.argv[1], json.loads(sys.argv[2]), "r")
+    arg = json.loads(sys.argv[2])
+    if "seq" in arg:
+        run_seq(sys.argv[1], arg)
+    else:
+        run_node(sys.argv[1], arg, "r")
     print("done")
